@@ -175,19 +175,7 @@ def run(repo, res, tier):
     _c14ev.optional_metadata_rule(repo, res, "TAB-XSD")
 
     # ---------------------------------------------------------------- number formatting
-    cse = wr.methods["_create_sub_element"]
-    texts = [n for n in walk_no_nested(cse) if isinstance(n, ast.Assign) and norm(n.targets[0]).endswith(".text")]
-    vpar = cse.args.args[-1].arg
-    ok = len(texts) >= 1
-    for tx in texts:
-        v = tx.value
-        good = isinstance(v, ast.Call) and call_name(v) in ("str", "repr") and len(v.args) == 1
-        if good:
-            inner = v.args[0]
-            alts = [inner.body, inner.orelse] if isinstance(inner, ast.IfExp) else [inner]
-            good = all(norm(a) in (vpar, "np.float64(%s)" % vpar, "float(%s)" % vpar) for a in alts)
-        ok = ok and good
-    res.check("NUMFMT", "state values are written with the shortest round-trip repr (str of the value / np.float64)", ok, mod, cse, "_create_sub_element text = %s" % ([norm(t.value) for t in texts]), "values are rounded or formatted with limited precision: read-back values are not bit-identical", qualname="CommonRoadSolutionWriter._create_sub_element")
+    _c14ev.number_text_rule(repo, res)
     # parsing of the element text (float everywhere, int for the time step) is decided by the state round trip (c14ev.state_rule)
     # trajectory node (tag, planning problem id, states in order, time ordering on reading), header numbers and dates:
     # decided by evaluating writer and reader against an element model (c14ev) — see also header_rule above
